@@ -240,10 +240,12 @@ func (s *Stream) next(ctx context.Context, block bool) bool {
 		// run concurrently with the wait
 		signal := s.signal
 		s.mutex.Unlock()
+		verifPoint("stream.before_wait", s)
 
 		// await next event
 		select {
 		case _, ok := <-signal:
+			verifPoint("stream.woken", s)
 			if !ok {
 				// close stream
 				s.mutex.Lock()
